@@ -256,3 +256,8 @@ Definition chk_astype (P : chunked) (target : schema) (sp : res lcol) (impl : re
     res_eqb lcol_eqb sp impl;
     true;
     wf_b P ].
+
+(* ---------- C05 / C01: one offered table becomes a row by field NAME (Box.v) ---------- *)
+From NP Require Export Box.
+Definition chk_box (fields : list string) (t : table) (row : list (list val)) : bool :=
+  res_eqb (list_eqb vlist_eqb) (m_box fields t) (Ok row).
